@@ -13,15 +13,20 @@ TECHNIQUE = ("Lean 4: `_get_iota` translated from the Python source on every run
              "local-unitary invariance proved over C with explicit finite sums for all n; geometric measure: post-processing "
              "of an abstract Tucker result proved (Cauchy-Schwarz); exact rational + float correspondence with the real code; "
              "numpy partial-trace oracle")
-LEVEL_TEXT = ("Proved for all n and all vectors (model): _get_iota(j,n,s,.) deletes bit j and is a bijection with explicit inverse "
-              "(C20_iota, C20_iota_src ties the theorem to the source text); generalized_cross_product = |u|^2|v|^2-|<u,v>|^2 "
-              "(C20_lagrange); the code's Meyer-Wallach value = 2(1-(1/n) sum_k Tr rho_k^2) on unit vectors, lies in [0,1], is 0 iff "
-              "all one-qubit marginals are pure (C20_mw, C20_mw_range, C20_mw_zero_iff_pure), pure marginal iff slices "
-              "proportional, product states give 0 and conversely (C20_mw_zero_iff_product), invariance under a one-qubit "
-              "unitary (C20_mw_local_unitary) and under qubit relabelling (C20_mw_relabel_partial: abstract index relabelling); geometric measure "
-              "post-processing (C20_geo_post). Tied: _get_iota exhaustively n<=10; slices/entries/value on dyadic Gaussian-rational "
-              "vectors exactly (Lean side in Q[i]) and on float vectors to 1e-9; the post-processing of the captured Tucker results to 1e-9. "
-              "Only tested: tensorly's Tucker (zero on product states, GHZ/W values, core = <factors, psi>).")
+LEVEL_TEXT = ("Proved for all n and all vectors (about the executable model instantiated at C): _get_iota(j,n,s,.) deletes bit j and is a "
+              "bijection with explicit inverse (C20_iota, C20_iota_bits; C20_iota_src ties the theorem to the CURRENT source text by "
+              "re-translation on every run); generalized_cross_product = |u|^2|v|^2-|<u,v>|^2 (C20_lagrange); the model's slicing loop "
+              "builds the two iota-slices and its Meyer-Wallach value equals 2(1-(1/n) sum_k Tr rho_k^2) on unit vectors (C20_mw), lies in "
+              "[0,1] (C20_mw_range), is 0 iff all one-qubit marginals are pure (C20_mw_zero_iff_pure) iff slices proportional "
+              "(C20_pure_iff_proportional) iff the vector is a product state (C20_mw_product_zero, C20_mw_zero_iff_product, both directions, "
+              "no normalisation needed); invariance under any one-qubit unitary on any qubit (C20_mw_local_unitary); relabelling only in "
+              "slice-wise form (C20_mw_relabel_partial: the construction of the slice reindexing from a bit permutation is missing); "
+              "geometric measure: everything the property says about the returned triple given the Tucker kernel's specification "
+              "(C20_geo_post: argmin over restarts, range by Cauchy-Schwarz, product state = phase * kron(factors), normalised, fidelity "
+              "1-measure). Tied: _get_iota exhaustively n<=10, _to_qubits, slices/entries/value on dyadic Gaussian-rational vectors "
+              "(Lean side exact in Q[i]; n<=6 quick, <=8 thorough) and on float vectors to 1e-9, rejected lengths, the post-processing of "
+              "the captured Tucker results to 1e-9. Only tested: tensorly's Tucker (unit factors, core=<factors,psi>, zero on product "
+              "states, GHZ/W values), numpy.")
 LEVEL_NOTE = ("Trusted: Lean kernel (propext, Classical.choice, Quot.sound); the source->Lean translation of _get_iota (Nat for Python "
               "int, valid for qubit_idx<=qubits; cross-checked exhaustively n<=10 each run); the hand model of the numpy loops "
               "outside the explored inputs; numpy; tensorly.tucker (K4: unit-norm factors, core = <(x)f_k, psi>, convergence) validated "
@@ -185,22 +190,44 @@ def mw_ideal(v):
     return 2 * (1 - sum(p) / len(p))
 
 
+class RealCodeRaised(Exception):
+    """qclib itself raised (on a valid input this is a violation; on an invalid one it is the expected rejection)"""
+
+
+def _guard(fn, *a, **k):
+    try:
+        return fn(*a, **k)
+    except Exception as e:  # noqa: BLE001 - anything the real code throws
+        raise RealCodeRaised(f"{type(e).__name__}: {e}") from e
+
+
+class NonReal(Exception):
+    """the real code returned a value with a non-zero imaginary part where the property needs a real number"""
+
+
+def _real(x, what):
+    z = complex(x)
+    if abs(z.imag) > 1e-12 or math.isnan(z.real):
+        raise NonReal(f"{what} = {z!r} is not a real number")
+    return float(z.real)
+
+
 def call_mw(v, capture=False):
     """Run the REAL meyer_wallach_entanglement; optionally capture what it passed to
     generalized_cross_product (the slices) and what that returned (the per-qubit entries)."""
     E = _E()
     if not capture:
-        return float(E.meyer_wallach_entanglement(np.asarray(v))), None
+        return _real(_guard(E.meyer_wallach_entanglement, np.asarray(v)), "meyer_wallach_entanglement"), None
     rec = []
     orig = E.generalized_cross_product
 
     def wrapper(u, w):
         r = orig(u, w)
-        rec.append((np.array(u).reshape(-1).copy(), np.array(w).reshape(-1).copy(), float(r)))
+        rec.append((np.array(u).reshape(-1).copy(), np.array(w).reshape(-1).copy(), _real(r, "generalized_cross_product")))
         return r
     E.generalized_cross_product = wrapper
     try:
-        val = float(E.meyer_wallach_entanglement(np.asarray(v)))
+        val = _real(_guard(E.meyer_wallach_entanglement, np.asarray(v)), "meyer_wallach_entanglement")
     finally:
         E.generalized_cross_product = orig
     return val, rec
@@ -221,10 +248,10 @@ def call_geo(v, seed, capture=False):
     if capture:
         E.tucker = wrapper
     try:
-        loss, ps, fs = E.geometric_entanglement(np.asarray(v), True, True)
+        loss, ps, fs = _guard(E.geometric_entanglement, np.asarray(v), True, True)
     finally:
         E.tucker = orig
-    return float(loss), np.asarray(ps).reshape(-1), [np.asarray(f) for f in fs], rec
+    return _real(loss, "geometric_entanglement"), np.asarray(ps).reshape(-1), [np.asarray(f) for f in fs], rec
 
 
 # ------------------------------------------------------------------------------------------------
@@ -337,15 +364,18 @@ def tie_iota(ctx, nmax=10):
         for q in range(n):
             for s in (0, 1):
                 for b in range(2 ** n):
-                    d, r = E._get_iota(q, n, s, b)
-                    lines.append(f"{q} {s} {b} {1 if d else 0} {r}")
+                    try:
+                        d, r = E._get_iota(q, n, s, b)
+                        lines.append(f"{q} {s} {b} {1 if d else 0} {r}")
+                    except Exception:  # noqa: BLE001
+                        lines.append(f"{q} {s} {b} raise")
         ctx.tie({"op": "iota", "n": n}, lines, label=f"_get_iota exhaustive n={n}")
         ctx.count("iota-table")
     for (q, n, s, b) in ((0, 2, 2, 1), (1, 3, 5, 6), (0, 1, 3, 0)):
         try:
             d, r = E._get_iota(q, n, s, b)
             lines = [f"{1 if d else 0} {r}"]
-        except AssertionError:
+        except Exception:  # noqa: BLE001
             lines = ["raise"]
         ctx.tie({"op": "iota1", "q": q, "n": n, "s": s, "b": b}, lines)
     lens = list(range(0, 70)) + [127, 128, 129, 255, 256, 257, 1023, 1024, 1025]
@@ -394,8 +424,11 @@ def tie_mwq(ctx, n, kind, re, im, den):
     op = {"op": "mwq", "re": re, "im": im, "den": den}
     try:
         val, rec = call_mw(v, capture=True)
-    except (IndexError, ZeroDivisionError):
+    except RealCodeRaised:
         ctx.tie(op, ["raise"], label=f"mwq {kind} len={len(re)} raises")
+        return
+    except NonReal as e:
+        ctx.tie(op, ["non-real ; " + str(e).replace(";", ",")], label=f"mwq {kind} n={n}: {e}")
         return
     lines = []
     for q, (u, w, e) in enumerate(rec):
@@ -405,8 +438,11 @@ def tie_mwq(ctx, n, kind, re, im, den):
     lines.append(f"mw ; {val!r}")
     nrm = float(np.linalg.norm(v))
     if nrm > 0:
-        valn, _ = call_mw(v / nrm)
-        lines.append(f"mwn ; {valn!r}")
+        try:
+            valn, _ = call_mw(v / nrm)
+            lines.append(f"mwn ; {valn!r}")
+        except (NonReal, RealCodeRaised) as e:
+            lines.append("non-real ; " + str(e).replace(";", ","))
     ctx.tie(op, lines, label=f"mwq {kind} n={n} den={den}")
     ctx.count("mwq-" + kind)
 
@@ -416,9 +452,12 @@ def tie_mwf(ctx, kind, v):
     op = {"op": "mwf", "re": [float(x) for x in v.real], "im": [float(x) for x in v.imag]}
     try:
         val, rec = call_mw(v, capture=True)
-    except (IndexError, ZeroDivisionError):
+    except RealCodeRaised:
         ctx.tie(op, ["raise"], label=f"mwf {kind} len={len(v)} raises")
         ctx.count("mwf-raises")
+        return
+    except NonReal as e:
+        ctx.tie(op, ["non-real ; " + str(e).replace(";", ",")], label=f"mwf {kind}: {e}")
         return
     lines = [f"e {q} ; {e!r}" for q, (_, _, e) in enumerate(rec)] + [f"mw ; {val!r}"]
     ctx.tie(op, lines, label=f"mwf {kind} len={len(v)}")
@@ -492,6 +531,8 @@ def compare(op, impl, model):
     if impl == ["raise"] or model == ["raise"]:
         return None if impl == model else f"impl={impl[:1]!r} model={model[:1]!r}"
     di, dm = _parse(impl), _parse(model)
+    if "non-real" in di:
+        return "impl: " + " ".join(di["non-real"] or [])
     if kind == "mwq":
         for k, toks in di.items():
             if k == "mwn":
@@ -554,7 +595,11 @@ def oracle_iota(ctx, nmax=10):
                 bit = (b >> q) & 1
                 want = ((b >> (q + 1)) << q) | (b & ((1 << q) - 1))
                 for s in (0, 1):
-                    d, r = E._get_iota(q, n, s, b)
+                    try:
+                        d, r = E._get_iota(q, n, s, b)
+                    except Exception as e:  # noqa: BLE001
+                        bad = bad or (q, s, b, f"raised {type(e).__name__}: {e}")
+                        continue
                     if bool(d) != (bit == s) or r != want:
                         bad = bad or (q, s, b, bool(d), int(r), bit == s, want)
                 seen.add((bit, want))
@@ -573,7 +618,15 @@ def oracle_mw_state(ctx, n, kind, v, g=None, light=False):
     h = vhash(v)
     base = f"mw:{kind}:n={n}:{h}"
     rp = rep_vec(v, kind="mw", state_kind=kind)
-    val, rec = call_mw(v, capture=True)
+    try:
+        val, rec = call_mw(v, capture=True)
+    except NonReal as e:
+        ctx.fail(f"mw.non-real:{kind}:n={n}:{h}", str(e), dict(rp, check="value"))
+        return
+    except RealCodeRaised as e:
+        ctx.fail(f"mw.raises:{kind}:n={n}:{h}", f"meyer_wallach_entanglement raised on a valid {n}-qubit vector: {e}",
+                 dict(rp, check="value"))
+        return
     ideal = mw_ideal(v)
     pur = purities(v)
     ctx.count("mw-" + kind)
@@ -617,7 +670,11 @@ def oracle_mw_state(ctx, n, kind, v, g=None, light=False):
     k = int(g.integers(n))
     u = rand_unitary(g)
     v1 = apply_1q(v, n, k, u)
-    val1, _ = call_mw(v1)
+    try:
+        val1, _ = call_mw(v1)
+    except (NonReal, RealCodeRaised) as e:
+        ctx.fail(f"mw.non-real:{kind}:n={n}:{h}", str(e), dict(rp, check="value"))
+        return
     if abs(val1 - val) > TOL:
         ctx.fail(f"mw.local-unitary:{kind}:n={n}:{h}", f"value {val!r} -> {val1!r} after a unitary on qubit {k}",
                  dict(rp, check="local-unitary", qubit=k,
@@ -651,11 +708,15 @@ FID_TOL = 1e-7
 def oracle_geo_state(ctx, n, kind, v, seed, tie=True):
     h = vhash(v)
     base = f"geo:{kind}:n={n}:{h}"
-    loss, ps, fs, rec = call_geo(v, seed, capture=True)
-    np.random.seed(seed)
-    loss_only = float(_E().geometric_entanglement(np.asarray(v)))
-    ctx.count("geo-oracle-" + kind)
     rp = rep_vec(v, kind="geo", seed=seed, state_kind=kind)
+    try:
+        loss, ps, fs, rec = call_geo(v, seed, capture=True)
+        np.random.seed(seed)
+        loss_only = _real(_guard(_E().geometric_entanglement, np.asarray(v)), "geometric_entanglement")
+    except (NonReal, RealCodeRaised) as e:
+        ctx.fail(f"geo.raises:{kind}:n={n}:{h}", f"geometric_entanglement on a valid {n}-qubit vector: {e}", dict(rp, check="raises"))
+        return
+    ctx.count("geo-oracle-" + kind)
     if tie:
         tie_geo(ctx, kind, v, seed, loss, ps, fs, rec)
     # K4 assumptions about tucker: unit factors, core = <(x)f, psi>
@@ -695,18 +756,20 @@ def oracle_geo_state(ctx, n, kind, v, seed, tie=True):
             ctx.fail(f"geo.{name}:{kind}:n={n}:{h}", msg, dict(rp, check=name))
 
 
-def run_sizes(ctx, ns_mw, ns_geo, reps, mwq_ns, mwf_ns):
+def run_sizes(ctx, ns_mw, ns_geo, reps, mwq_ns, mwf_ns, qreps=1):
     tie_iota(ctx, 10)
     oracle_iota(ctx, 10)
     for n in mwq_ns:
-        for (kind, re, im, den) in rational_vectors(ctx, n):
-            tie_mwq(ctx, n, kind, re, im, den)
+        for _ in range(qreps if n <= 6 else 1):
+            for (kind, re, im, den) in rational_vectors(ctx, n):
+                tie_mwq(ctx, n, kind, re, im, den)
     for L in (1, 3, 5, 6, 7, 12):       # lengths the real code rejects (ZeroDivisionError / IndexError)
         tie_mwq(ctx, 0, "bad-length", [1] * L, [0] * L, 1)
         tie_mwf(ctx, "bad-length", np.ones(L) / math.sqrt(L))
     for n in mwf_ns:
-        for kind, v in states(ctx, n)[:4]:
-            tie_mwf(ctx, kind, v)
+        for _ in range(qreps if n <= 6 else 1):
+            for kind, v in states(ctx, n)[:4]:
+                tie_mwf(ctx, kind, v)
     for n in ns_mw:
         for rep in range(reps if n <= 6 else 1):
             for kind, v in states(ctx, n):
@@ -725,16 +788,27 @@ def run_sizes(ctx, ns_mw, ns_geo, reps, mwq_ns, mwf_ns):
         oracle_geo_state(ctx, n, "real-dtype", x, ctx.rng.getrandbits(31), tie=False)
     ctx.notes.append("geometric measure tolerances: product/GHZ 1e-9 (unchanged code reaches 4e-15), W_n 1e-3 "
                      "(tucker's stopping tol=1e-4 leaves ~1e-5), fidelity 1e-7; numpy global RNG seeded before each call")
-    ctx.notes.append("global optimality of the geometric measure on non-product states is not checked (ALS local optimum; "
-                     "real-dtype inputs are optimised over real product states only, e.g. (|001>+|010>+|100>-|111>)/2 gives 3/4 "
-                     "instead of 1/2) — outside the stated property")
+    # observation outside the stated property: tensorly's random init is real, so real-amplitude states are optimised over
+    # real product states only; (|001>+|010>+|100>-|111>)/2 is LU-equivalent to GHZ_3 (true measure 1/2)
+    x = np.array([0, 1, 1, 0, 1, 0, 0, -1], dtype=complex) / 2
+    try:
+        lx, _, _, _ = call_geo(x, ctx.rng.getrandbits(31))
+        plus_i = np.array([1, 1j]) / math.sqrt(2)
+        fid = abs(np.vdot(np.kron(np.kron(plus_i, plus_i), plus_i), x)) ** 2
+        ctx.notes.append(f"observation (outside the stated property, not a failure): geometric_entanglement((|001>+|010>+|100>-|111>)/2) "
+                         f"= {lx:.6f} although the product state |+i>^3 has fidelity {fid:.6f}, i.e. the true geometric measure is <= "
+                         f"{1 - fid:.6f}; global optimality / local-unitary invariance of the geometric value is not part of C20's statement")
+    except (NonReal, RealCodeRaised) as e:
+        ctx.notes.append(f"observation probe raised: {e}")
+    ctx.notes.append("geometric_entanglement raises ValueError for a 1-qubit vector (tensorly needs >= 2 factors); n=1 is outside the "
+                     "property's quantifier (n >= 2)")
 
 
 def run(ctx):
     if ctx.quick:
-        run_sizes(ctx, ns_mw=range(2, 8), ns_geo=range(2, 8), reps=1, mwq_ns=range(1, 6), mwf_ns=range(1, 8))
+        run_sizes(ctx, ns_mw=range(2, 8), ns_geo=range(2, 8), reps=2, mwq_ns=range(1, 7), mwf_ns=range(1, 8))
     else:
-        run_sizes(ctx, ns_mw=range(2, 9), ns_geo=range(2, 9), reps=3, mwq_ns=range(1, 8), mwf_ns=range(1, 9))
+        run_sizes(ctx, ns_mw=range(2, 9), ns_geo=range(2, 9), reps=8, mwq_ns=range(1, 9), mwf_ns=range(1, 9), qreps=4)
 
 
 def search(ctx, hints):
@@ -757,7 +831,10 @@ def search(ctx, hints):
 
 
 def replay(ctx, payload):
-    r = payload["replay"]
+    r = payload.get("replay") or {}
+    if not r:   # an obligation (proof / translation / tie) stopped checking and no failing input was found: re-run everything
+        run(ctx)
+        return
     if r.get("kind") == "iota":
         oracle_iota(ctx, int(r["n"]))
         return
